@@ -3,9 +3,11 @@ import props_struct
 import props_trav
 import props_query
 import props_single
+import props_build
 
 CHECKS = {}
 CHECKS.update(props_struct.CHECKS)
 CHECKS.update(props_trav.CHECKS)
 CHECKS.update(props_query.CHECKS)
 CHECKS.update(props_single.CHECKS)
+CHECKS.update(props_build.CHECKS)
